@@ -421,6 +421,23 @@ fn scenario() {
     while let Ok(cont) = rx.lock().unwrap().try_recv() {
         cont(true);
     }
+    // every execution builds the lazy tables again under its own schedule (hook H4) and the hook compares them
+    // with the ones the sequential warm-up execution built
+    let diverged = reed_solomon_simd::verif::take_table_divergence();
+    if diverged > 0 {
+        violation(format!("{diverged} lazily initialised table(s) built under this schedule differ from the table(s) built by sequential first use"));
+    }
+}
+
+/// One single-threaded execution that touches every lazy table: the process-wide values every later
+/// execution is compared with (and computes with) are the ones sequential first use builds.
+fn warm_up() {
+    use reed_solomon_simd::engine::tables;
+    Runner::new(RandomScheduler::new_from_seed(0, 1), config(None)).run(|| {
+        let n = tables::EXP_LOG.exp.len() + tables::LOG_WALSH.len() + tables::SKEW.len() + tables::MUL16.len() + tables::MUL128.len();
+        assert!(n > 0);
+        let _ = reed_solomon_simd::verif::take_table_divergence();
+    });
 }
 
 // ======================================================================
@@ -558,6 +575,7 @@ fn cmd_worker(map: &BTreeMap<String, String>) -> i32 {
             }
         }
     });
+    warm_up();
     let reach = Arc::new(Mutex::new(Reach::default()));
     let seed = simcore::prng::mix(&[master, 0xC16, w as u64]);
     let r2 = reach.clone();
@@ -721,14 +739,14 @@ fn cmd_check(map: &BTreeMap<String, String>) -> i32 {
     let coverage = J::obj()
         .with("evaluations", J::u(execs))
         .with("distinct_nontrivial", J::u(sum("distinct")))
-        .with("rule", J::s("one evaluation = one shuttle execution (cold tables, 2-4 threads, workload drawn from shuttle::rand); distinct = distinct hashes of the full decision sequence (every next_task choice and every random value) of an execution, counted in a set per worker process and summed over workers (workers use different scheduler seeds)"))
+        .with("rule", J::s("one evaluation = one shuttle execution (lazy tables initialised again in every execution and compared with the sequentially built ones; 2-4 threads or a crowd of 17-24; workload drawn from shuttle::rand); distinct = distinct hashes of the full decision sequence (every next_task choice and every random value) of an execution, counted in a set per worker process and summed over workers (workers use different scheduler seeds)"))
         .with("samples", J::Arr(vec![J::s(format!("{workers} worker processes; even workers: RandomScheduler, odd workers: PctScheduler depth 1..4; scheduler seed = mix(VERIF_SEED={master}, 0xC16, worker); {per} executions each")), J::s("every thread draws (engine in Naive/NoSimd/Ssse3/Avx2/DefaultEngine, layer in ReedSolomon/DefaultRate/HighRate/LowRate, k,r in 1..=4, shard bytes in {2,64,66}, 1-2 rounds, hand-over of the half-filled decoder with probability 1/3)")]))
         .with("schedulers", J::s("shuttle RandomScheduler and PctScheduler(depth 1-4), seeded"))
         .with("scheduling_steps", J::u(sum("steps")))
         .with("runs_per_hour", J::u(if wall > 0.0 { (execs as f64 / wall * 3600.0) as u64 } else { 0 }))
         .with("faults_fired", J::obj().with("F12.context_switches", J::u(sum("context_switches"))).with("F12.preemptions", J::u(sum("preemptions"))).with("object_handed_over_mid_round", J::u(sum("handovers"))))
         .with("probes", J::obj().with("encode_rounds", J::u(sum("encode_rounds"))).with("decode_rounds", J::u(sum("decode_rounds"))).with("round_finished_by_a_different_thread", J::u(sum("finished_by_other"))).with("executions_with_17_to_24_threads", J::u(sum("crowds"))).with("threads_starting_with_a_direct_eval_poly_call", J::u(sum("direct_poly"))).with("threads_per_engine", engines))
-        .with("components", J::obj().with("real", J::Arr(vec![J::s("all codecs, engines and table initialisers of /repo, built through the shadow manifest with --cfg verif_shuttle")])).with("stub", J::Arr(vec![J::s("std::sync::LazyLock replaced by a shim over shuttle::lazy_static::Lazy (hook H4); threads / mpsc / Mutex of the scenario are shuttle's")])))
+        .with("components", J::obj().with("real", J::Arr(vec![J::s("all codecs, engines and table initialisers of /repo, built through the shadow manifest with --cfg verif_shuttle")])).with("stub", J::Arr(vec![J::s("std::sync::LazyLock replaced by hook H4's shim (a shuttle Once that is fresh in every execution, so every execution runs the real initialisers again under its own schedule; the table built is compared byte for byte with the one a sequential warm-up execution built, which is also the one kept for the process); threads / mpsc / Mutex of the scenario are shuttle's")])))
         .with("exhaustive", J::Bool(false));
     let evidence = J::obj()
         .with("property_id", J::s("C16"))
@@ -763,6 +781,7 @@ fn cmd_replay(path: &str) -> i32 {
     };
     let sched = j.get("schedule_of_failing_execution").and_then(J::as_str).unwrap_or("").to_string();
     let _ = simcore::gf::field();
+    warm_up();
     // 1. the failing execution alone
     if !sched.is_empty() {
         let res = std::panic::catch_unwind(move || {
